@@ -400,7 +400,9 @@ let run_keys_case (idx : int) (toks : string list) (fuel : nat) =
     | "E" :: f :: v :: x :: tl -> ops tl (("E", int_of_string f, int_of_string v, int_of_string x) :: acc)
     | x :: _ -> failwith ("bad key op " ^ x) in
   let os = ops toks [] in
-  let tkey f v = 10000 + f * 100 + v and rkey f v = 20000 + f * 100 + v and res f v = f * 100 + v in
+  (* resource family 4 = files: value = file * 3 + spelling, the spellings of one path are equal keys *)
+  let canon f v = if f = 4 then v / 3 else v in
+  let tkey f v = 10000 + f * 100 + v and rkey f v = 20000 + f * 100 + canon f v and res f v = f * 100 + canon f v in
   let tb = List.sort_uniq compare (List.filter_map (fun (o, f, v, _) ->
       match o with
       | "q" -> Some (tkey f v, `Plain (inner f * 100 + v))
